@@ -38,10 +38,23 @@ DecVarintFrom(b, p, acc, mult) ==      \* mult = 128^k, kept <= 2^28
 EncCount(n) == EncVarint(n)
 DecCount(b, p) == DecVarintFrom(b, p, 0, 1)
 
-ZigZag(c) == IF c >= 0 THEN 2 * c ELSE -2 * c - 1            \* |c| < 2^30
+\* signed counts: zig-zag (0, -1, 1, -2, ... -> 0, 1, 2, 3, ...) then the varint.  The zig-zag value of a 32-bit count needs 32
+\* bits, one more than TLC's integers hold, so the first 7-bit group is split off before doubling: with m = c (c >= 0) or
+\* -c-1 (c < 0) the value is 2m + sign, its lowest group is 2 (m mod 64) + sign and the remaining groups are those of m div 64.
+ZigZag(c) == IF c >= 0 THEN 2 * c ELSE -2 * c - 1            \* |c| < 2^30 (used by the small exhaustive runs)
 UnZigZag(u) == IF u % 2 = 0 THEN u \div 2 ELSE -((u + 1) \div 2)
-EncSigned(c) == EncVarint(ZigZag(c))
-DecSigned(b, p) == LET r == DecCount(b, p) IN IF r.ok THEN Ok(UnZigZag(r.v), r.p) ELSE Fail
+EncSigned(c) ==
+  LET m == IF c >= 0 THEN c ELSE -(c + 1)
+      low == 2 * (m % 64) + (IF c < 0 THEN 1 ELSE 0)
+      rest == m \div 64
+  IN  IF rest = 0 THEN <<low>> ELSE <<low + 128>> \o EncVarint(rest)
+DecSigned(b, p) ==
+  IF ~HasBytes(b, p, 1) THEN Fail
+  ELSE LET x == b[p] low == x % 128
+           r == IF x < 128 THEN Ok(0, p + 1) ELSE DecVarintFrom(b, p + 1, 0, 1)
+       IN  IF ~r.ok \/ r.v > 33554431 THEN Fail            \* the remaining groups hold at most 25 bits (32 in all)
+           ELSE LET m == r.v * 64 + (low \div 2) IN Ok(IF low % 2 = 0 THEN m ELSE -m - 1, r.p)
+SignedAgree == \A c \in -5000..5000 : EncSigned(c) = EncVarint(ZigZag(c))      \* the split form is the plain zig-zag varint
 
 (* milliseconds *)
 MsPerDay == 86400000
